@@ -543,6 +543,40 @@ def check(run):
                       % (g.norm.split('::')[-1], nbytes, ''), 'the failure exit is unreachable for the arguments passed')
     if ndirect < 1:
         run.broke('socks_connection: no negotiation step entered directly with (error_code(), n) found (on_request1 -> on_request_domain_name confirmed by hand)')
+    run.clause('an error on the way closes the connection - also when the success reply cannot be written any more: every error exit of a completion written inside socks_connection reaches close_connection() (the target connection is closed, not dropped: a dropped socket sends no end-of-file)')
+    nerr = 0
+    for g_ in fx.repo_functions():
+        if g_.kind != 'lambda' or q.top_function(fx, g_).cls != C or g_.cfg is None or not g_.params:
+            continue
+        ecn = g_.params[0].get('name')
+        if not ecn or 'error_code' not in g_.ty(g_.params[0]['t']):
+            continue
+        rets = [r_ for r_ in q.returns(g_) if any(q.render(g_, q.strip_casts(a_)) == ecn and p_ for a_, p_ in q.guards_at(g_, r_))]
+        if not rets:
+            continue
+        # only completions of operations on the session's TCP sockets: a datagram whose name cannot be resolved is dropped,
+        # the association goes on
+        encl = [e_ for e_ in fx.by_usr(g_.parent_usr)] if g_.parent_usr else []
+        on_tcp = False
+        for e_ in encl[:1]:
+            for n_ in e_.all_nodes():
+                if n_['k'] == 'lambda' and n_.get('fn') == g_.usr:
+                    p_ = e_.parent(n_)
+                    while is_node(p_) and p_['k'] != 'call':
+                        p_ = e_.parent(p_)
+                    if is_node(p_) and p_.get('args') and q.render(e_, p_['args'][0]).replace('this->', '') in ('m_client_connection', 'm_server_connection') or (is_node(p_) and is_node(p_.get('obj')) and q.render(e_, p_['obj']).replace('this->', '') in ('m_client_connection', 'm_server_connection')):
+                        on_tcp = True
+        if not on_tcp:
+            continue
+        nerr += 1
+        run.touch(g_)
+        ccs = [c for c in g_.calls() if q.callee_name(c) == C + '::close_connection']
+        bad = [r_ for r_ in rets if not q.any_precedes(g_, ccs, r_)]
+        run.check(not bad, 'R4', 'reply-error-closes', '%s: completion lambda at line %s' % (q.top_function(fx, g_).norm.split('::')[-1], g_.d.get('line', g_.loc().split(':')[-1])), g_.loc(bad[0]) if bad else g_.loc(),
+                  'a completion written as a lambda returns on its error edge without close_connection(): when the client hangs up between its request and the reply, the connection object dies with the target connection still open - no end-of-file is ever sent to the target, which keeps a dead connection',
+                  'the error edge calls close_connection()')
+    if nerr < 1:
+        run.broke('socks_connection: no completion lambda with an error exit found (on_connected\'s reply completion confirmed by hand)')
     run.clause('no read of zero bytes: a field whose length comes from the client (number of methods, host-name length minus what was read already) is read only when something is left to read - the simulated socket parks an empty read until the next packet, and the client that sent a complete request waits forever for its reply')
     nz = engines.reads_never_empty(run, [g_ for g_ in fx.repo_functions() if q.top_function(fx, g_).cls == C], rule='R4')
     if nz < 2:
